@@ -162,3 +162,42 @@ func SameLeaves(got map[string][]byte, want map[string][]byte) string {
 	}
 	return ""
 }
+
+// DescribeNode renders a raw node for violation messages.
+func DescribeNode(enc []byte) string {
+	if len(enc) < 1 {
+		return "empty"
+	}
+	typ, body := enc[len(enc)-1], enc[:len(enc)-1]
+	switch typ {
+	case typeBranch:
+		bn := &trie.CollapsedBn{}
+		if bn.Unmarshal(body) != nil {
+			return "undecodable branch"
+		}
+		n := 0
+		for _, ch := range bn.EncodedChildren {
+			if len(ch) > 0 {
+				n++
+			}
+		}
+		return fmt.Sprintf("branch with %d children", n)
+	case typeExtension:
+		en := &trie.CollapsedEn{}
+		if en.Unmarshal(body) != nil {
+			return "undecodable extension"
+		}
+		return fmt.Sprintf("extension key=%v child=%x", en.Key, en.EncodedChild)
+	case typeLeaf:
+		ln := &trie.CollapsedLn{}
+		if ln.Unmarshal(body) != nil {
+			return "undecodable leaf"
+		}
+		v := ln.Value
+		if len(v) > 48 {
+			v = v[:48]
+		}
+		return fmt.Sprintf("leaf key-nibbles=%v value=%x(%q)", ln.Key, v, v)
+	}
+	return "unknown node type"
+}
